@@ -30,14 +30,14 @@ def setup(nscripts):
     p = os.path.join(rt.REPO, "oneliner", "__main__.py")
     with open(p, encoding="utf8") as f:
         MAIN_CODE = compile(f.read(), p, "exec")
-    for si in range(nscripts):
+    for si in range(nscripts + len(IO_FILES)):
         for u in LEGAL["unparser"]:
             for w in LEGAL["expr_wrapper"]:
                 for i in LEGAL["if_style"]:
                     c = cfgmod.Configs()
                     c.unparser, c.expr_wrapper, c.if_style = u, w, i
                     random.seed(1)
-                    REF[(si, u, w, i)] = c10k.alpha(ol.convert_code_string(SCRIPTS[si], configs=c))
+                    REF[(si, u, w, i)] = c10k.alpha(ol.convert_code_string(decode_source(file_bytes(si)), configs=c))
     c = cfgmod.Configs()
     names = sorted(set(dir(c)) | set(OPTION_NAMES) | {"", "Unparser", " unparser", "unparser ", "unparse", "x", "config_names", "if-style"})
     values = sorted({v for n in OPTION_NAMES for v in LEGAL[n]} | {"", "x", " list", "List", "if_expr ", "ast.unparse=x"})
@@ -45,36 +45,144 @@ def setup(nscripts):
     POOL.update(names=names, values=values, seps=seps)
 
 
+# input files of the I/O dimension (bytes on disk) -- index >= len(SCRIPTS)
+IO_FILES = [
+    "s = 'h\u00e9llo \u4e16\u754c'\n\u00f1 = len(s)\nprint(s, \u00f1)\n".encode("utf-8"),  # non-ASCII literals and identifier
+    b"\xef\xbb\xbf" + SCRIPTS[0].encode("utf-8"),  # UTF-8 BOM
+    SCRIPTS[1].replace("\n", "\r\n").encode("utf-8")[:-2],  # CRLF line ends, no trailing newline
+    b"# -*- coding: latin-1 -*-\nprint(len('\xe9'), '\xe9' == chr(233))\n",  # PEP 263 coding line
+    (SCRIPTS[0] + "# padding comment line so that the file is larger than one I/O buffer\n" * 200 + "print('tail')\n").encode("utf-8"),  # > io.DEFAULT_BUFFER_SIZE
+]
+OUT_KINDS = ["stdout", "new file", "existing longer file", "the input file itself", "the input file under another spelling"]
+IO_ARGS = [[], ["expr_wrapper=list"], ["expr_wrapper=bogus"], ["if_style=short_circuit", "unparser=oneliner"], ["if_style=short_circuit", "unparser"]]
+OLD_CONTENT = ("# previous content " * 400).encode("utf-8")
+
+
+def file_bytes(si):
+    return SCRIPTS[si].encode("utf-8") if si < len(SCRIPTS) else IO_FILES[si - len(SCRIPTS)]
+
+
+def decode_source(data):
+    """the text Python itself sees for a source file with these bytes"""
+    import tokenize
+
+    enc, _ = tokenize.detect_encoding(io.BytesIO(data).readline)
+    return io.TextIOWrapper(io.BytesIO(data), encoding=enc).read()
+
+
 class FS:
-    def __init__(self, script):
+    """in-memory file system: bytes on disk, open() with the truncation / append / in-place
+    semantics of the real modes, every open recorded"""
+
+    def __init__(self, script_bytes):
         self.events = []
-        self.files = {"in.py": script}
+        self.files = {"in.py": script_bytes, "old.txt": OLD_CONTENT}
 
-    def open(self, name, mode="r", encoding=None, **kw):
-        self.events.append((name, mode))
-        if "w" in mode or "a" in mode or "x" in mode or "+" in mode:
-            fs = self
-            buf = io.StringIO()
-            fs.files[name] = ""
+    @staticmethod
+    def norm(name):
+        return os.path.normpath(os.fspath(name))
 
-            class W:
-                def __enter__(s):
-                    return s
+    def _read_text(self, name, encoding, newline):
+        text = self.files[name].decode(encoding or "utf-8")
+        if newline is None:
+            text = text.replace("\r\n", "\n").replace("\r", "\n")
+        return text
 
-                def __exit__(s, *a):
-                    fs.files[name] = buf.getvalue()
-                    return False
+    def _lazy_reader(self, name, head_len, decode):
+        """a reader whose first `head_len` bytes are fetched when the file is opened (what a
+        buffered reader has already pulled in) and whose remainder is fetched at read() time --
+        from whatever the file contains THEN (it may have been truncated in between)"""
+        fs = self
+        head = fs.files[name][:head_len]
 
-                def write(s, t):
-                    buf.write(t)
+        class R:
+            def __enter__(s):
+                return s
 
-                def close(s):
-                    fs.files[name] = buf.getvalue()
+            def __exit__(s, *a):
+                return False
 
-            return W()
+            def read(s, n=-1):
+                data = head + fs.files.get(name, b"")[len(head) :] if len(head) == head_len else head
+                return decode(data)
+
+            def close(s):
+                pass
+
+        return R()
+
+    def tokenize_open(self, name):
+        name = self.norm(name)
+        self.events.append((name, "r"))
         if name not in self.files:
             raise FileNotFoundError(name)
-        return io.StringIO(self.files[name])
+        # tokenize.open() reads the first lines to detect the encoding: the buffered reader
+        # underneath has pulled in the first io.DEFAULT_BUFFER_SIZE bytes by then
+        return self._lazy_reader(name, io.DEFAULT_BUFFER_SIZE, decode_source)
+
+    def open(self, name, mode="r", buffering=-1, encoding=None, errors=None, newline=None, **kw):
+        name = self.norm(name)
+        binary = "b" in mode
+        writing = "w" in mode or "a" in mode or "x" in mode or "+" in mode
+        self.events.append((name, "r" if not writing else mode))
+        if not writing:
+            if name not in self.files:
+                raise FileNotFoundError(name)
+            if binary:
+                return self._lazy_reader(name, 0, lambda d: d)
+
+            def dec(d):
+                text = d.decode(encoding or "utf-8")
+                return text.replace("\r\n", "\n").replace("\r", "\n") if newline is None else text
+
+            return self._lazy_reader(name, 0, dec)
+        if "x" in mode and name in self.files:
+            raise FileExistsError(name)
+        if "r" in mode and name not in self.files:
+            raise FileNotFoundError(name)
+        fs = self
+        if "w" in mode or "x" in mode:
+            fs.files[name] = b""  # truncated at open time
+            start = 0
+        elif "a" in mode:
+            fs.files.setdefault(name, b"")
+            start = len(fs.files[name])
+        else:  # r+
+            start = 0
+
+        class W:
+            def __init__(s):
+                s.pos = start
+
+            def __enter__(s):
+                return s
+
+            def __exit__(s, *a):
+                return False
+
+            def write(s, t):
+                data = t if binary else t.encode(encoding or "utf-8")
+                cur = fs.files[name]
+                fs.files[name] = cur[: s.pos] + data + cur[s.pos + len(data) :]
+                s.pos += len(data)
+                return len(t)
+
+            def read(s):
+                return fs.files[name] if binary else fs.files[name].decode(encoding or "utf-8")
+
+            def truncate(s, size=None):
+                fs.files[name] = fs.files[name][: s.pos if size is None else size]
+
+            def seek(s, p, whence=0):
+                s.pos = p if whence == 0 else (len(fs.files[name]) if whence == 2 else s.pos + p)
+
+            def flush(s):
+                pass
+
+            def close(s):
+                pass
+
+        return W()
 
 
 def _realize(x):
@@ -84,6 +192,10 @@ def _realize(x):
         return deep_realize(x)
     except Exception:
         return x
+
+
+def out_name(outk):
+    return [None, "out.txt", "old.txt", "in.py", "./in.py"][outk]
 
 
 def run_main(c_args, use_out, dep_unparser, si):
@@ -103,12 +215,16 @@ def run_main(c_args, use_out, dep_unparser, si):
             return real_convert(_realize(script), configs=c)
 
     ol.convert_code_string = convert_stub
-    fs = FS(SCRIPTS[si])
+    import tokenize
+
+    fs = FS(file_bytes(si))
     printed = []
-    ns = argparse.Namespace(C=(list(c_args) if c_args else None), input_filename="in.py", output=("out.txt" if use_out else None), unparser=dep_unparser)
+    ns = argparse.Namespace(C=(list(c_args) if c_args else None), input_filename="in.py", output=out_name(int(use_out)), unparser=dep_unparser)
     g = {"__name__": "__main__", "open": fs.open, "print": lambda *a, **k: printed.append(a)}
     old = argparse.ArgumentParser.parse_args
     argparse.ArgumentParser.parse_args = lambda self, *a, **k: ns
+    old_tok = tokenize.open
+    tokenize.open = fs.tokenize_open
     err = None
     try:
         import warnings
@@ -120,6 +236,7 @@ def run_main(c_args, use_out, dep_unparser, si):
         err = type(e).__name__
     finally:
         argparse.ArgumentParser.parse_args = old
+        tokenize.open = old_tok
         ol.convert_code_string = real_convert
     return err, fs, printed
 
@@ -161,27 +278,45 @@ def spec(c_args, dep_unparser):
 
 
 def check(c_args, use_out, dep_unparser, si):
-    use_out = rt.pick_bool(use_out)
-    err, fs, printed = run_main(c_args, use_out, dep_unparser, si)
+    """use_out: bool (stdout / new file) or an index into OUT_KINDS"""
+    if isinstance(use_out, int) and not isinstance(use_out, bool):
+        outk = use_out
+    else:
+        outk = 1 if rt.pick_bool(use_out) else 0
+    err, fs, printed = run_main(c_args, outk, dep_unparser, si)
     t = spec(c_args, dep_unparser)
-    wrote = False
-    for _, m in fs.events:
-        if m != "r":
-            wrote = True
+    with rt.NoTracing():
+        before = {"in.py": file_bytes(si), "old.txt": OLD_CONTENT}
+        target = FS.norm(out_name(outk)) if outk else None
+        wrote = [e for e in fs.events if e[1] != "r"]
+        untouched = all(fs.files.get(n) == v for n, v in before.items() if n != target) and all(n in before or n == target for n in fs.files)
     if t is None:
         # must abort before any output file is created or truncated, and print no result
-        return err is not None and not wrote and len(printed) == 0
+        return err is not None and not wrote and len(printed) == 0 and fs.files == before
     if err is not None:
         return False
     with rt.NoTracing():
         want = REF[(si, _realize(t["unparser"]), _realize(t["expr_wrapper"]), _realize(t["if_style"]))]
-        if use_out:
-            got = fs.files.get("out.txt")
-            ok_io = len(printed) == 0 and [e for e in fs.events if e[1] != "r"] == [("out.txt", "w")]
+        if outk:
+            data = fs.files.get(target)
+            try:
+                got = None if data is None else data.decode("utf-8")
+            except UnicodeDecodeError:
+                got = None
+            ok_io = len(printed) == 0 and len(wrote) == 1 and wrote[0][0] == target and untouched
         else:
             got = printed[0][0] if len(printed) == 1 and len(printed[0]) == 1 else None
-            ok_io = not wrote
+            ok_io = not wrote and untouched
         return ok_io and got is not None and c10k.alpha(_realize(got)) == want
+
+
+def k_io(sc, outk, ai):
+    """I/O dimension: every input file kind x every output situation x a few option lists"""
+    sc = rt.pick(sc, len(SCRIPTS) + len(IO_FILES))
+    outk = rt.pick(outk, len(OUT_KINDS))
+    ai = rt.pick(ai, len(IO_ARGS))
+    with rt.NoTracing():
+        return check(list(IO_ARGS[ai]), int(outk), None, int(sc))
 
 
 def k_free(a, use_out):
